@@ -1,4 +1,5 @@
 import GnarkVerif.Model.PointCodecComp
+import GnarkVerif.Model.PointCodecOps
 import GnarkVerif.Proofs.PointCodecWriter
 /-
 C07 — composite objects (`kzg.SRS`, `kzg.ProvingKey`, `kzg.VerifyingKey`, `pedersen.ProvingKey`,
@@ -63,5 +64,40 @@ theorem C07_comp_write_no_hidden_error (E : Env α β) (raw : Bool) (w : Budgets
     rw [wChunks_eq_write, C07_comp_chunks]
   rw [h]
   exact ⟨rfl, wWrite_prefix _ _, wWrite_ok _ _, wWrite_err _ _⟩
+
+end GV.PointCodec
+
+/-! ## twisted-Edwards point codec -/
+namespace GV.PointCodec
+open GV
+
+/-- what `tedDecode` (the acceptance set the `ted dec` ops are compared with) accepts: the buffer holds a whole
+frame, the ordinate is canonical, the decoded point is on the curve, `x = 0` comes without the sign bit, and the
+count is the frame size -/
+theorem C07_ted_accept (P : Sig.EdParams) (buf : List UInt8) (X : Nat × Nat) (n : Nat)
+    (h : tedDecode P buf = .ok (X, n)) :
+    P.size ≤ buf.length ∧ P.yRaw buf < P.q ∧ P.onCurve X = true ∧ ¬ (X.1 = 0 ∧ P.signBit buf = true) ∧
+    n = P.size ∧ X = P.decompress (Sig.sqrtF P.q) buf := by
+  unfold tedDecode at h
+  split at h
+  · cases h
+  · rename_i hlen
+    simp only at h
+    split at h
+    · cases h
+    · rename_i hy
+      split at h
+      · cases h
+      · split at h
+        · cases h
+        · rename_i hon
+          split at h
+          · cases h
+          · rename_i hs
+            cases h
+            refine ⟨by omega, by omega, by simpa using hon, ?_, rfl, rfl⟩
+            intro ⟨hx, hb⟩
+            apply hs
+            simp [hx, hb]
 
 end GV.PointCodec
